@@ -102,3 +102,46 @@ func VH_C07_endblock(h *vrt.H) {
 	}
 	h.Reach("end")
 }
+
+// VH_C07_failed_tx_no_trace: a transaction that fails part-way is rolled back by baseapp;
+// a replica that keeps running (same keeper object) and a replica that restarts (fresh keeper
+// over the same store) must then compute the same thing. Any process-local state that
+// survives the rollback (a cache outside the store) shows up as a difference.
+func VH_C07_failed_tx_no_trace(h *vrt.H) {
+	ka := vhKeeperNamed(h, "locking")
+	ctx := h.Ctx()
+	oldW := []uint64{0, 1, 2}[h.Choose("oldWeight", 0, 2)]
+	vhSmallState(ka, ctx, 1, oldW)
+	vhMust(ka.EthTxQueue.Set(ctx, types.EthTxQueue{}))
+	vhMust(ka.RewardPool.Set(ctx, types.RewardPool{Goat: math.ZeroInt(), Gas: math.ZeroInt(), Remain: math.ZeroInt()}))
+	// block N: requests that change a token weight/threshold and then fail (unknown validator)
+	newW := []uint64{0, 1, 5}[h.Choose("newWeight", 0, 2)]
+	bad := goattypes.LockingRequests{
+		Gas:           []*goattypes.GasRequest{{Amount: h.Big("gas", "0", vhBig)}},
+		UpdateWeights: []*goattypes.UpdateTokenWeightRequest{{Weight: newW}},
+		Locks:         []*goattypes.LockRequest{{Validator: vhEthAddr(vhAddr(9)), Amount: h.Big("badAmount", "0", vhBig)}},
+	}
+	err := h.TryTx(ctx, func(c sdk.Context) error { return ka.ProcessLockingRequest(c, bad) })
+	h.Assert(err != nil, "request-naming-an-unknown-validator-fails")
+	// block N+1 on the running replica (ka) and on a restarted one (kb)
+	kb := vhKeeperNamed(h, "locking")
+	amt := h.Big("amount", "0", vhBig)
+	good := []*goattypes.LockRequest{{Validator: vhEthAddr(vhAddr(0)), Amount: amt}}
+	var pa, pb uint64
+	var ea, eb error
+	_ = h.DryRun(ctx, func(c sdk.Context) error {
+		ea = ka.Lock(c, good)
+		v, _ := ka.Validators.Get(c, vhAddr(0))
+		pa = v.Power
+		return nil
+	})
+	_ = h.DryRun(ctx, func(c sdk.Context) error {
+		eb = kb.Lock(c, good)
+		v, _ := kb.Validators.Get(c, vhAddr(0))
+		pb = v.Power
+		return nil
+	})
+	h.Assert((ea == nil) == (eb == nil), "running-and-restarted-replica-agree-on-the-outcome")
+	h.Assert(pa == pb, "running-and-restarted-replica-agree-on-the-power")
+	h.Reach("end")
+}
